@@ -67,6 +67,7 @@ type task struct {
 	prio    int
 	fn      func()
 	goid    uint64
+	gptr    uintptr
 }
 
 // S is one scheduler instance (one run).
@@ -100,6 +101,7 @@ type S struct {
 	// scheduler's own locking, so the monitor draws no conclusion.
 	inSched  atomic.Int32
 	byGoid   map[uint64]*task
+	byG      map[uintptr]*task
 	Deadlock *ErrDeadlock
 	BlockedN uint64 // number of times a task blocked inside the library
 
@@ -118,7 +120,7 @@ type S struct {
 // New creates a scheduler. estSteps is the expected total number of steps
 // (from the solo pre-pass), used to place PCT change points.
 func New(spec Spec, rng *prng.R, estSteps uint64, siteIn func(uint32) bool) *S {
-	s := &S{spec: spec, rng: rng, siteIn: siteIn, MaxStep: 50_000_000, Hash: 0xcbf29ce484222325, byGoid: map[uint64]*task{}}
+	s := &S{spec: spec, rng: rng, siteIn: siteIn, MaxStep: 50_000_000, Hash: 0xcbf29ce484222325, byGoid: map[uint64]*task{}, byG: map[uintptr]*task{}}
 	if spec.Policy == "pct" {
 		if estSteps < 2 {
 			estSteps = 2
@@ -166,7 +168,7 @@ func (s *S) runnable() []int {
 
 // pickOther chooses the next task among the runnable ones other than exclude.
 func (s *S) pickOther(exclude int) int {
-	r := s.runnable()
+	r := s.ready()
 	var c []int
 	for _, i := range r {
 		if i != exclude {
@@ -240,6 +242,9 @@ func (s *S) fromList(kind int) (int, bool) {
 // decide returns the task that should run after this yield.
 func (s *S) decide(site uint32) int {
 	if s.UseList {
+		if s.replayIx < len(s.Replay) && s.Replay[s.replayIx].Step <= s.Step {
+			s.ready()
+		}
 		if to, ok := s.fromList(kindHook); ok {
 			return to
 		}
@@ -266,7 +271,7 @@ func (s *S) decide(site uint32) int {
 			s.lowPrio--
 			s.tasks[s.cur].prio = s.lowPrio
 			best := s.cur
-			for _, i := range s.runnable() {
+			for _, i := range s.ready() {
 				if s.tasks[i].prio > s.tasks[best].prio {
 					best = i
 				}
@@ -288,8 +293,10 @@ func (s *S) Hook(site uint32) {
 		s.progress.Add(1)
 		s.inSched.Add(1)
 		defer s.inSched.Add(-1)
-		if s.nBlocked.Load() > 0 {
-			if !s.slowEnter() {
+		if s.nBlocked.Load() > 0 && getg() != s.tasks[s.cur].gptr {
+			// a task that was blocked inside the library and has been released:
+			// it registers as runnable and waits for the token
+			if !s.wokenPark() {
 				return
 			}
 		}
@@ -313,50 +320,57 @@ func (s *S) Hook(site uint32) {
 	}
 }
 
-// slowEnter runs at a yield while some task is flagged blocked. A task that was
-// blocked and has been released by the running task arrives here concurrently
-// with it: it registers as runnable and parks until it is given the token. The
-// running task itself waits until every flagged task has settled (still
-// blocked, or parked), so that the set of runnable tasks at each decision is a
-// function of the program, not of timing. It reports false when the run ended
-// while the caller was parked.
-func (s *S) slowEnter() bool {
-	id := goid()
+// wokenPark is reached, concurrently with the running task, by a task that was
+// blocked inside the library and has just been released (e.g. by an Unlock of
+// the running task). It registers as runnable and parks until it is given the
+// token. It reports false when the run ended meanwhile.
+func (s *S) wokenPark() bool {
+	g := getg()
 	s.mu.Lock()
 	if !s.active {
 		s.mu.Unlock()
 		return false
 	}
-	if cur := s.tasks[s.cur]; cur.goid != id {
-		t := s.byGoid[id]
-		if t == nil {
-			s.mu.Unlock()
-			return false
-		}
-		if t.blocked {
-			t.blocked = false
-			s.nBlocked.Add(-1)
-		}
-		t.parked = true
+	if s.tasks[s.cur].gptr == g {
 		s.mu.Unlock()
-		s.inSched.Add(-1)
-		<-t.wake
-		s.inSched.Add(1)
-		s.mu.Lock()
-		t.parked = false
-		ok := s.active
-		s.mu.Unlock()
-		if !ok {
-			runtime.Goexit()
-		}
-		if s.nBlocked.Load() == 0 {
-			return true
-		}
-	} else {
-		s.mu.Unlock()
+		return true
 	}
-	s.settle()
+	t := s.byG[g]
+	if t == nil {
+		s.mu.Unlock()
+		return false
+	}
+	if t.blocked {
+		t.blocked = false
+		s.nBlocked.Add(-1)
+	}
+	t.parked = true
+	s.mu.Unlock()
+	s.inSched.Add(-1)
+	<-t.wake
+	s.inSched.Add(1)
+	s.mu.Lock()
+	t.parked = false
+	ok := s.active
+	s.mu.Unlock()
+	if !ok {
+		runtime.Goexit()
+	}
 	return true
+}
+
+// ready returns the runnable tasks. The set is only consulted at decision
+// points; before each, the running task waits until every task flagged blocked
+// has settled (still blocked by wait status, or parked), so that the set is a
+// function of the program and not of timing.
+func (s *S) ready() []int {
+	if s.MayBlock && s.nBlocked.Load() > 0 {
+		s.settle()
+	}
+	s.lock()
+	r := s.runnable()
+	s.unlock()
+	return r
 }
 
 // settle waits until every task flagged blocked is either really blocked
@@ -457,22 +471,19 @@ func (s *S) exitCurrent() {
 		s.progress.Add(1)
 		s.inSched.Add(1)
 		defer s.inSched.Add(-1)
-	}
-	if s.MayBlock && s.nBlocked.Load() > 0 {
-		// a task released from a library primitive may get here without having
-		// passed a yield: it must hold the token before it may leave
-		if !s.slowEnter() {
-			return
+		if s.nBlocked.Load() > 0 && getg() != s.tasks[s.cur].gptr {
+			// a released task may get here without having passed a yield: it must
+			// hold the token before it may leave
+			if !s.wokenPark() {
+				return
+			}
 		}
 	}
 	s.lock()
 	s.tasks[s.cur].done = true
 	s.unlock()
-	if s.MayBlock && s.nBlocked.Load() > 0 {
-		s.settle()
-	}
+	r := s.ready()
 	s.lock()
-	r := s.runnable()
 	anyBlocked := false
 	for _, t := range s.tasks {
 		if t.blocked && !t.done {
@@ -507,8 +518,10 @@ func (s *S) start(t *task) {
 	go func() {
 		debug.SetPanicOnFault(true)
 		t.goid = goid()
+		t.gptr = getg()
 		s.mu.Lock()
 		s.byGoid[t.goid] = t
+		s.byG[t.gptr] = t
 		t.parked = true
 		s.mu.Unlock()
 		close(ready)
@@ -597,10 +610,9 @@ func (s *S) monitor() {
 		s.nBlocked.Add(1)
 		s.BlockedN++
 		s.mu.Unlock()
-		s.settle() // tasks it may have released just before blocking
-		s.mu.Lock()
-		r := s.runnable()
+		r := s.ready() // settles tasks it may have released just before blocking
 		if len(r) == 0 {
+			s.mu.Lock()
 			s.deadlock(st)
 			s.mu.Unlock()
 			s.finish()
@@ -615,6 +627,7 @@ func (s *S) monitor() {
 		} else {
 			next = s.pickOther(s.cur)
 		}
+		s.mu.Lock()
 		prev := s.cur
 		s.Switches = append(s.Switches, Switch{Step: s.Step, To: next, Blocked: true, From: prev})
 		s.cur = next
